@@ -59,19 +59,19 @@ type Oblig struct {
 	Cover   bool // cover query: expected SAT (vacuity guard)
 	AnyPath bool // cover passes if any path instance is not refuted
 	// results
-	Verdict string // unsat (discharged), sat, unknown
-	Solver  string
-	TimeMS  int64
-	Model   string
-	noSplit bool
-	coi bool
-	lite bool
-	NoSolve string
+	Verdict   string // unsat (discharged), sat, unknown
+	Solver    string
+	TimeMS    int64
+	Model     string
+	noSplit   bool
+	coi       bool
+	lite      bool
+	NoSolve   string
 	quickOnly bool
-	FailGoal string
-	Relaxed string // solver output of the relaxed query (candidate model)
-	Raw     string
-	Inputs  map[string]string // name -> SMT term of function inputs (for replay)
+	FailGoal  string
+	Relaxed   string // solver output of the relaxed query (candidate model)
+	Raw       string
+	Inputs    map[string]string // name -> SMT term of function inputs (for replay)
 }
 
 type loopCut struct {
@@ -81,26 +81,26 @@ type loopCut struct {
 }
 
 type deferred struct {
-	call *ssa.CallCommon
-	args []Val
-	fn   Val // closure / func value if any
+	call  *ssa.CallCommon
+	args  []Val
+	fn    Val // closure / func value if any
 	instr *ssa.Defer
 }
 
 type State struct {
-	vals    map[ssa.Value]Val
-	heap    map[string]string
-	alloc   string
-	pc      *pcNode
-	ghost   map[string]Val
-	defers  []deferred
-	cuts    map[*ssa.BasicBlock]*loopCut
-	visits  map[*ssa.BasicBlock]int
-	trace   []int
-	results []Val // set at return
-	inl     *inlineFrame
+	vals     map[ssa.Value]Val
+	heap     map[string]string
+	alloc    string
+	pc       *pcNode
+	ghost    map[string]Val
+	defers   []deferred
+	cuts     map[*ssa.BasicBlock]*loopCut
+	visits   map[*ssa.BasicBlock]int
+	trace    []int
+	results  []Val // set at return
+	inl      *inlineFrame
 	panicked bool
-	memo    map[string]Val
+	memo     map[string]Val
 }
 
 type inlineFrame struct {
@@ -159,33 +159,33 @@ func heapSort(k string) string {
 
 // FnRun is the verification of one function body against its contract.
 type FnRun struct {
-	W        *World
-	Fn       *ssa.Function
-	C        *Contract
-	decls    []string
-	nfresh   int
-	Obligs   []*Oblig
-	ord      map[string]int            // kind -> next ordinal
-	siteOrd  map[ssa.Instruction]map[string]int
-	loops    map[*ssa.BasicBlock]*loopInfo
-	paths    int
-	entry    *State // entry snapshot (for old())
-	entryEnv *Env
-	frame    []modItem // evaluated at entry
-	alloc0   string
-	Assump   map[string]bool
-	Unknown  map[string]bool
-	Trusted  map[string]bool
-	errs     []string
-	inputs   map[string]string
-	maxPaths int
+	W           *World
+	Fn          *ssa.Function
+	C           *Contract
+	decls       []string
+	nfresh      int
+	Obligs      []*Oblig
+	ord         map[string]int // kind -> next ordinal
+	siteOrd     map[ssa.Instruction]map[string]int
+	loops       map[*ssa.BasicBlock]*loopInfo
+	paths       int
+	entry       *State // entry snapshot (for old())
+	entryEnv    *Env
+	frame       []modItem // evaluated at entry
+	alloc0      string
+	Assump      map[string]bool
+	Unknown     map[string]bool
+	Trusted     map[string]bool
+	errs        []string
+	inputs      map[string]string
+	maxPaths    int
 	globalFacts []string
-	zeroRefs []string
-	litAxioms map[string][]string
-	noBind   int
-	Props    []string
+	zeroRefs    []string
+	litAxioms   map[string][]string
+	noBind      int
+	Props       []string
 	inlineStack []*ssa.Function
-	spans    map[*ssa.Function]map[ssa.Instruction]int
+	spans       map[*ssa.Function]map[ssa.Instruction]int
 }
 
 type loopInfo struct {
@@ -893,7 +893,16 @@ func (r *FnRun) assumeTy(st *State, v string, t types.Type) {
 	}
 	_ = 0
 	id := r.W.tagFor(pt.Elem())
-	st.assume(sOr(sEq(v, "null"), sEq(sx("tyof", v), fmt.Sprint(id))))
+	if _, isArr := pt.Elem().Underlying().(*types.Array); isArr {
+		// Go converts freely between pointers to array types with identical underlying types
+		// ((*[32]byte)(pub) for `type PublicKey [32]byte`): the object behind a *T may have been
+		// allocated as any of them.  Demanding tyof == tag(T) made every path through such a
+		// conversion contradictory, i.e. vacuously verified (DESIGN 11.6b).
+		// (stated through the class of the tag, not as a disjunction of tags: no case split)
+		st.assume(sOr(sEq(v, "null"), sEq(sx("tyclass", sx("tyof", v)), fmt.Sprint(r.W.arrayClass(id)))))
+	} else {
+		st.assume(sOr(sEq(v, "null"), sEq(sx("tyof", v), fmt.Sprint(id))))
+	}
 	if at, ok := pt.Elem().Underlying().(*types.Array); ok {
 		st.assume(sOr(sEq(v, "null"), sAnd(sEq(sx("alen", v), fmt.Sprint(at.Len())), sEq(sx("elty", v), fmt.Sprint(r.W.eltyFor(at.Elem()))))))
 	}
